@@ -81,6 +81,66 @@ print(json.dumps(res))
 '''
 
 
+REAL_BOOT = r'''
+import gc, warnings
+warnings.simplefilter('ignore')
+from pathlib import Path
+from nobodd.server import BootServer
+from nobodd.config import Board
+images = %(images)r
+boards = {0x100 + i: Board(0x100 + i, Path(p), 1, None) for i, p in enumerate(images)}
+srv = BootServer(('127.0.0.1', 0), boards)
+th = threading.Thread(target=srv.serve_forever, kwargs={'poll_interval': 0.01}, daemon=True)
+th.start()
+time.sleep(0.1)
+# the images are opened (and mapped) on first use: touch every board once before taking the baseline
+for i in range(len(images)):
+    c = Client(srv.server_address, 1.0); c.rrq(('%%x/config.txt' %% (0x100 + i)).encode(), b'octet', []); c.run(); c.close()
+wait_until(lambda: len(srv.subs._alive) == 0, 5.0)
+base = dict(threads=threading.active_count(), fds=fds(), alive=len(srv.subs._alive))
+res = {'base': base, 'steps': []}
+def snap(label):
+    ok = wait_until(lambda: threading.active_count() <= base['threads'] and len(srv.subs._alive) == 0 and fds() <= base['fds'], 8.0)
+    gc.collect()
+    res['steps'].append(dict(label=label, back_to_baseline=ok, threads=threading.active_count(), fds=fds(),
+                             alive=len(srv.subs._alive), reaper_alive=srv.subs.is_alive()))
+for i in range(len(images)):
+    for name in %(names)r:
+        c = Client(srv.server_address, 1.0); c.rrq(('%%x/%%s' %% (0x100 + i, name)).encode(), b'octet', [(b'utimeout', b'10000')]); c.run(); c.close()
+snap('completed transfers from images (zero-length files that own a cluster included)')
+for i in range(len(images)):
+    for name in %(names)r:
+        c = Client(srv.server_address, 1.0); c.rrq(('%%x/%%s' %% (0x100 + i, name)).encode(), b'octet', [(b'utimeout', b'10000'), (b'blksize', b'64')]); c.step(); c.close()
+snap('abandoned transfers from images')
+srv.shutdown(); srv.server_close()
+th.join(5)
+res['after_close'] = dict(alive=len(srv.subs._alive), reaper_alive=srv.subs.is_alive())
+print(json.dumps(res))
+'''
+
+
+def boot_resources(ctx):
+    """the same accounting for a BootServer serving files out of FAT images (dirty volumes, empty files owning a cluster)"""
+    import tempfile
+    from props import c06
+    with tempfile.TemporaryDirectory() as tmp:
+        imgs = [c06.make_image(ctx.rng, tmp, ft, d, z)[0] for ft, d, z in (('fat16', True, True), ('fat12', False, True), ('fat32', True, False))]
+        res = realserver.run_script(REAL_BOOT % dict(images=imgs, names=['kernel.img', 'empty', 'zerolen.bin', 'config.txt']), timeout=180)
+    ctx.case(('real-boot',), True, 'real-udp-boot')
+    if res.get('crash'):
+        ctx.violation('boot.real/harness-crash', f'real BootServer scenario crashed: {res.get("stderr", "")[-400:]}', res)
+        return
+    ctx.extra['real_boot'] = res
+    for s in res['steps']:
+        if not s['back_to_baseline'] or not s['reaper_alive']:
+            ctx.violation('boot.real/resources-not-released', f'after {s["label"]}: threads {s["threads"]} (baseline {res["base"]["threads"]}), '
+                          f'fds {s["fds"]} (baseline {res["base"]["fds"]}), registry {s["alive"]}, reaper alive {s["reaper_alive"]}', dict(result=res))
+            return
+    ac = res.get('after_close', {})
+    if ac.get('alive') or ac.get('reaper_alive'):
+        ctx.violation('boot.real/server-close', f'server_close() left transfers running: {ac}', dict(result=res))
+
+
 def scenario(ctx, R, rng, content, B, tmo_opt, silence_after, ending, tick_gap):
     """one virtual-clock scenario; returns nothing, reports violations"""
     files = {'f': content}
@@ -208,6 +268,7 @@ def run(ctx, build):
         ac = res.get('after_close', {})
         if not ac.get('ok') or ac.get('alive') or ac.get('reaper_alive'):
             ctx.violation('tftpd.real/server-close', f'server_close() left transfers running: {ac}', dict(result=res))
+    boot_resources(ctx)
 
 
 def replay(ctx, obj):
